@@ -13,6 +13,14 @@ open BytomModel
 /-- the cache is keyed by `user + ":" + pw` (F22 fixed in ed51f8ca) — the expression
     `cachedCheck` mirrors with `user ++ 58 :: pw`; reverting to `user + pw` breaks this obligation -/
 theorem cache_key_tied : Authn.cacheKeyExpr = Gen.Authn.cacheKeyExpr := by decide
+/-- the cache key is a per-request VALUE: both map accesses (before and after the section in
+    which `tokenMu` is released for the store lookup) index with the one local `key`, defined
+    once from `user` and `pw`; `API` holds no shared byte buffer. A key assembled in a struct-field
+    scratch buffer that another request can overwrite while the lock is released (so that a
+    genuine success is cached under a foreign pair) breaks these obligations. -/
+theorem token_map_key_uses_tied : Authn.tokenMapKeyUses = Gen.Authn.tokenMapKeyUses ∧
+    Gen.Authn.tokenMapRawKeys = ["key"] := by decide
+theorem api_no_scratch_buffer_tied : Authn.apiScratchFields = Gen.Authn.apiScratchFields := by decide
 /-- a cached entry is used unless `now.After(lastLookup + tokenExpiry)` (strict) -/
 theorem stale_cond_tied : Authn.staleCond = Gen.Authn.staleCond := by decide
 theorem cached_check_chain_tied : Authn.cachedCheckChain = Gen.Authn.cachedCheckChain := by decide
